@@ -277,7 +277,7 @@ Top:
 		obj = sargs[0]
 		goto Top
 	case Funky:
-		name := to.GetName()
+		name := FuncPrintName(to)
 		obj = append(List{Symbol(name)}, to.GetArgs()...)
 		goto Top
 	case Readble:
@@ -420,7 +420,7 @@ Top:
 		n.funky = true
 		goto Top
 	case Funky:
-		name := to.GetName()
+		name := FuncPrintName(to)
 		obj = append(List{Symbol(name)}, to.GetArgs()...)
 		goto Top
 
